@@ -149,7 +149,9 @@ def _chunk(args):
     seed, lines = args
     col = core.Collector()
     for n, ln in enumerate(lines):
-        check_case(col, json.loads(ln), seed * 1000 + n)
+        t = json.loads(ln)
+        core.guarded(col, lambda: check_case(col, t, seed * 1000 + n), "ssi.SSI_fast+SSI_poles/Fn_cov", f"shape {t['sh']}",
+                     {"propagation": True, "transition": t, "seed": seed * 1000 + n})
         col.traces += 1
     return col
 
